@@ -24,7 +24,8 @@ REQUIRED = ["angle-class.small-angle(|a|<=0.05)", "angle-class.general-angle", "
             "scenario-has-all-roles", "undo", "uncertain-state", "goal-state-without-position",
             "contract.translate_rotate.Scenario", "contract.translate_rotate.LaneletNetwork",
             "contract.translate_rotate.GoalRegion", "part.Trajectory-in-DynamicObstacle",
-            "part.Trajectory-in-Scenario", "part.LaneletNetwork-in-Scenario", "part-with-derived-occupancies"]
+            "part.Trajectory-in-Scenario", "part.LaneletNetwork-in-Scenario", "part-with-derived-occupancies",
+            "class.NetworkSharedArrays", "class.IntDtype"]
 ASSUMPTIONS = ["tolerance 1e-9*(1+|p|+|t|) on points, 1e-8 on angles (mod 2pi)",
                "obstacle history lists and areas are not in the statement's list and are not compared"]
 SHARDS = {"quick": 4, "thorough": 16}
@@ -34,7 +35,7 @@ CLASSES = ["Rectangle", "Circle", "Polygon", "ShapeGroup", "InitialState", "KSSt
            "ExtendedPMState", "PMState", "CustomState", "UncertainState", "Trajectory", "TrajectoryPM", "Occupancy",
            "SetBasedPrediction", "TrajectoryPrediction", "StaticObstacle", "DynamicObstacle", "PhantomObstacle",
            "EnvironmentObstacle", "StopLine", "Lanelet", "TrafficSign", "TrafficLight", "LaneletNetwork", "Scenario",
-           "GoalRegion", "PlanningProblem", "PlanningProblemSet"]
+           "GoalRegion", "PlanningProblem", "PlanningProblemSet", "NetworkSharedArrays", "IntDtype"]
 
 
 def angle_pool(rng):
@@ -105,6 +106,38 @@ def make(name, G, rng):
         sc.add_objects(G.phantom_obstacle(1003))
         sc.add_objects(G.environment_obstacle(1004))
         return sc
+    if name == "NetworkSharedArrays":
+        # objects that were built from the SAME array objects (adjacent lanelets sharing their common boundary, a sign and
+        # a light on one pole): every one of them is moved exactly once
+        from commonroad.scenario.lanelet import Lanelet, LaneletNetwork
+        from commonroad.scenario.traffic_light import TrafficLight
+        from commonroad.scenario.traffic_sign import TrafficSign, TrafficSignElement, TrafficSignIDZamunda
+        x0, y0 = rng.uniform(-50, 50), rng.uniform(-50, 50)
+        xs = [x0 + 5.0 * k for k in range(4)]
+        b0 = np.array([[x, y0] for x in xs])
+        b1 = np.array([[x, y0 + 3.0] for x in xs])
+        b2 = np.array([[x, y0 + 6.0] for x in xs])
+        net = LaneletNetwork()
+        net.add_lanelet(Lanelet(b1, (b0 + b1) / 2, b0, 1, adjacent_left=2, adjacent_left_same_direction=True))
+        net.add_lanelet(Lanelet(b2, (b1 + b2) / 2, b1, 2, adjacent_right=1, adjacent_right_same_direction=True))
+        pole = np.array([x0 + 1.0, y0 - 1.0])
+        net.add_traffic_sign(TrafficSign(11, [TrafficSignElement(TrafficSignIDZamunda.MAX_SPEED, ["50"])], {1}, pole), {1})
+        net.add_traffic_light(TrafficLight(12, pole, G.traffic_light(99, full=True).traffic_light_cycle), {1})
+        return net
+    if name == "IntDtype":
+        # integer-valued coordinates handed over as integer-dtype arrays
+        from commonroad.scenario.lanelet import Lanelet, LaneletNetwork
+        from commonroad.scenario.traffic_light import TrafficLight
+        from commonroad.scenario.traffic_sign import TrafficSign, TrafficSignElement, TrafficSignIDZamunda
+        x0, y0 = rng.randint(-50, 50), rng.randint(-50, 50)
+        c = np.array([[x0 + 5 * k, y0 + k] for k in range(4)], dtype=int)
+        net = LaneletNetwork()
+        net.add_lanelet(Lanelet(c + np.array([0, 2]), c, c - np.array([0, 2]), 1))
+        net.add_traffic_sign(TrafficSign(11, [TrafficSignElement(TrafficSignIDZamunda.MAX_SPEED, ["50"])], {1},
+                                         np.array([x0 + 12, y0 + 3])), {1})
+        net.add_traffic_light(TrafficLight(12, np.array([x0 - 2, y0 + 7]),
+                                           G.traffic_light(99, full=True).traffic_light_cycle), {1})
+        return net
     if name == "GoalRegion":
         g = G.goal_region()
         return g
